@@ -630,7 +630,8 @@ def cython_pyx(path, relname, module_alias="xrl"):
         end = text.find("\ndef ", m.end())
         body = text[m.end(): end if end >= 0 else len(text)]
         calls = re.findall(r"\b%s\.(\w+)\s*\(" % module_alias, body)
-        defs.append(dict(name=m.group(1), cname=m.group(1).lstrip("_"), ret=None, args=args if ok else None, line=ln, file=relname, style="cython-def", calls=calls))
+        callargs = [(c, [x.strip() for x in a.split(",")]) for c, a in re.findall(r"\b%s\.(\w+)\s*\(([^()]*)\)" % module_alias, body)]
+        defs.append(dict(name=m.group(1), cname=m.group(1).lstrip("_"), ret=None, args=args if ok else None, line=ln, file=relname, style="cython-def", calls=calls, callargs=callargs))
     return dict(reexports=reexp, defs=defs, assigns=assigns)
 
 
